@@ -312,7 +312,80 @@ def _check(case):
     return bad[:8]
 
 
+# ---- memoize: a stored result is returned only for a call with equal arguments ------------------------------------------
+# (no two pool values are equal as Python scalars, e.g. 1 / 1.0 / True: those are equal arguments in Python's sense
+#  and share a key, like in functools.lru_cache)
+_MEMO_VALUES = [1, 2.5, "a", ("a", 1), ("a", 2), ["a", 1], ("b", 3), {"a": 1}, None, (), 2, b"a", (1, ("a", 1))]
+
+
+def _memo_cases(tier, rng):
+    n = 250 if tier == "quick" else 2500
+    names = ("a", "b")
+    for q in range(n):
+        calls = []
+        for _ in range(rng.randint(2, 6)):
+            args = tuple(rng.choice(_MEMO_VALUES) for _ in range(rng.randint(0, 2)))
+            kwargs = {k: rng.choice(_MEMO_VALUES) for k in rng.sample(names, rng.randint(0, 2))}
+            if rng.random() < 0.3:  # the same data arranged differently between positional and keyword arguments
+                k = rng.choice(names)
+                v = rng.choice(_MEMO_VALUES)
+                calls.append(((*args, (k, v)), dict(kwargs)))
+                kwargs = {**kwargs, k: v}
+            calls.append((args, kwargs))
+        rng.shuffle(calls)
+        yield {"calls": calls, "cache": ("simple", "lru", "hybrid")[q % 3]}
+
+
+def _check_memo(case):
+    from pipefunc.cache import HybridCache, LRUCache, SimpleCache, memoize
+    cache = {"simple": SimpleCache, "lru": lambda: LRUCache(shared=False, max_size=64),
+             "hybrid": lambda: HybridCache(shared=False, max_size=64)}[case["cache"]]()
+
+    def plain(*args, **kwargs):
+        return ("called-with", repr(args), repr(sorted(kwargs.items(), key=lambda kv: kv[0])))
+    executed = []
+
+    def counted(*args, **kwargs):
+        executed.append((args, kwargs))
+        return plain(*args, **kwargs)
+    f = memoize(cache=cache)(counted)
+    bad = []
+    seen = []
+    for args, kwargs in case["calls"]:
+        n0 = len(executed)
+        try:
+            got = f(*args, **kwargs)
+        except Exception as e:  # noqa: BLE001
+            bad.append(f"memoized call raised {type(e).__name__}: {str(e)[:80]}")
+            break
+        want = plain(*args, **kwargs)
+        if got != want:
+            bad.append(f"memoized f(*{args!r}, **{kwargs!r}) returned the result of another call: {got!r}")
+        equal_before = any(_same_call(args, kwargs, a2, k2) for a2, k2 in seen)
+        if equal_before and len(executed) != n0:
+            bad.append(f"f(*{args!r}, **{kwargs!r}) was executed again although an equal call is stored")
+        seen.append((args, kwargs))
+    return bad[:4]
+
+
+def _same_call(a1, k1, a2, k2):
+    def typed(x):
+        if isinstance(x, (tuple, list)):
+            return (type(x).__name__, tuple(typed(y) for y in x))
+        if isinstance(x, dict):
+            return ("dict", tuple(sorted((repr(k), typed(v)) for k, v in x.items())))
+        return (type(x).__name__, repr(x))
+    return typed(a1) == typed(a2) and typed(k1) == typed(k2)
+
+
 def bounded_checks():
     return [("key-iff-value", Check("key-iff-value", _pair_cases, _check, RULE + " (one case = one pool value "
                                     "compared with every later pool value)", key=lambda c: repr(c),
-                                    describe=lambda c: c))]
+                                    describe=lambda c: c)),
+            ("memoize-equal-calls-only", Check("memoize-equal-calls-only", _memo_cases, _check_memo,
+                                               "histories of 2..6 calls of a memoized function with positional / keyword "
+                                               "arguments from a pool incl. (name, value) tuples mirroring keyword "
+                                               "arguments, caches simple/lru/hybrid: every call returns its own result; "
+                                               "a call equal to a stored one is not executed again",
+                                               key=lambda c: repr(c), describe=lambda c: {"calls": repr(c["calls"]),
+                                                                                         "cache": c["cache"]}))]
